@@ -86,6 +86,7 @@ def check(ctx):
         "transactional context manager (`with conn:` inside _xh_sqlite_get_conn)",
         floor=8,
     )
+    ctx.rule("R5", "history files are written only through buffered file objects: a short write raises (or is retried), it is never silently accepted before the rename", floor=4)
     mod = ctx.repo.module(JSON)
     for q in LISTED:
         mod.func(q)  # anchors must exist
@@ -389,6 +390,31 @@ def check(ctx):
                     where=loc(c),
                 )
     del progress
+
+    # ------------------------------------------------------------------ R5
+    # "a failed write never reaches os.replace" (R2) relies on the write *raising*.  That is what the buffered
+    # layers do: BufferedWriter/TextIOWrapper loop until everything is written and raise ENOSPC/EFBIG.  A raw,
+    # unbuffered write (buffering=0, os.write) returns a short count instead; unless that count is looked at,
+    # a truncated temp file is closed cleanly and published over the good file.
+    n5 = 0
+    for q, fn in mod.functions():
+        for c in calls_in(fn):
+            nm = call_name(c) or ""
+            if nm in ("open", "os.fdopen", "io.open") and is_write_mode(open_mode(c) or "r"):
+                n5 += 1
+                buf = kwarg(c, "buffering") or (c.args[2] if len(c.args) > 2 else None)
+                raw = buf is not None and const_value(buf, None) == 0 and not isinstance(const_value(buf, None), bool)
+                ctx.ob("R5", f"{JSON}:{q}", f"`{short(c, 60)}`: history files are written through a buffered file object (a short write is retried or raises; it is never silently accepted)", not raw, key=f"{q}|unbuffered-writer", where=loc(c))
+            if nm == "io.FileIO" or nm == "FileIO":
+                n5 += 1
+                ctx.ob("R5", f"{JSON}:{q}", f"`{short(c, 60)}`: history files are not written through a raw FileIO", False, key=f"{q}|raw-fileio", where=loc(c))
+            if nm == "os.write":
+                n5 += 1
+                st_ = stmt_of(c)
+                dropped = isinstance(st_, ast.Expr) and st_.value is c
+                ctx.ob("R5", f"{JSON}:{q}", f"`{short(c, 50)}`: the byte count returned by os.write is used (short writes are possible)", not dropped, key=f"{q}|os-write-count-dropped", where=loc(c))
+    if n5 < 4:
+        raise AnalysisError(f"{JSON}: only {n5} writer constructions found")
 
 
 META = {
